@@ -1967,13 +1967,15 @@ class Interp:
                            expr=None)
                 saved = s.facts
                 s.facts = {}
+                same_self = self._same_self(expr, fr, callee)
                 for key_, value in saved.items():
                     for old, new in renames:
                         if key_[0] == 'isnone' and key_[1] == old:
                             s.facts[('isnone', new)] = value
                         elif key_[0] == 'is' and old in key_[1:]:
                             other = key_[2] if key_[1] == old else key_[1]
-                            if other in ('GeneratorExit',):
+                            if other in ('GeneratorExit',) or (
+                                    same_self and other.startswith('self.')):
                                 first, second = sorted((other, new))
                                 s.facts[('is', first, second)] = value
                 sub = DynFrame(Frame(callee.fn, callee.recv), depth=fr.depth + 1,
